@@ -422,6 +422,8 @@ func (e Engine) PerProcess(prop string) int {
 	switch prop {
 	case "C17", "C18", "C07":
 		return 1 // package-level state: every run starts from process-initial state
+	case "C11":
+		return 8 // lazily built package-level tables meet concurrency only in the first scenario of a process
 	}
 	return 50
 }
